@@ -1122,7 +1122,8 @@ def stream_ids(ctx, ncases):
                   "longitude": B.coord_desc("float", long_)}
         dims = ["time", "latitude", "longitude"]
         cases.append({"op": "ids", "time": [int(v) for v in tg], "lat": [C.fx(v) for v in lats], "lon": [C.fx(v) for v in lons],
-                      "ds": {"coords": coords, "vars": [{"name": "u", "dims": dims, "shape": shape, "data": B.hexlist(u)},
+                      "ds": {"coords": coords, "vars": [{"name": "meanDirection", "dims": dims, "shape": shape, "data": B.hexlist(wd_)},
+                                                         {"name": "u", "dims": dims, "shape": shape, "data": B.hexlist(u)},
                                                          {"name": "wave_direction", "dims": dims, "shape": shape, "data": B.hexlist(wd_)}]}})
         metas.append((tg, latg, long_, u, wd_, lats, lons))
     impl = ctx.impl("C14.py", {"cases": cases})["results"]
@@ -1154,7 +1155,18 @@ def stream_ids(ctx, ncases):
         if badi is not None:
             ctx.disagree("interpolate_dataset: u differs from the model at point %s: %r vs %r" % (badi, gu[badi] if badi >= 0 else None, wu[badi] if badi >= 0 else None), rep)
             continue
-        check_angular(ctx, rep, "interpolate_dataset wave_direction", gw, ww, vec, 360.0, 0.0, 360.0)
+        if not check_angular(ctx, rep, "interpolate_dataset wave_direction", gw, ww, vec, 360.0, 0.0, 360.0):
+            continue
+        # every *direction* variable is angular, not only the last one of the dataset
+        if "meanDirection" not in df:
+            ctx.oracle_fail("interpolate_dataset: meanDirection missing from the result", rep)
+            continue
+        g2 = [C.unfx(v) for v in df["meanDirection"]]
+        for p_, (u1, u2) in enumerate(zip(g2, gw)):
+            if isnan(u1) != isnan(u2) or (not isnan(u1) and angdiff(u1, u2, 360.0) > 1e-6):
+                ctx.oracle_fail("interpolate_dataset: meanDirection and wave_direction hold the same angular data but come back as %r and %r "
+                                "(one of them was not interpolated along the shorter arc)" % (u1, u2), dict(rep, point_index=p_))
+                break
 
 
 # ---------------------------------------------------------------------------------------------
